@@ -637,8 +637,13 @@ def r20_1_multiset(ctx, rule: str = 'R20.1') -> List[Ob]:
     if lin is not None and hist is not None and len(lin.args) == 3:
         a = [ast.unparse(x).replace(' ', '') for x in lin.args]
         bins_var = next((n.targets[0].id for n in g.node.body if isinstance(n, ast.Assign) and n.value is lin and isinstance(n.targets[0], ast.Name)), None)
-        cnt = a[2]
-        good = a[0] == f"{q0}[0].t_start" and a[1] == f"{q0}[0].t_end" and cnt.endswith('+1') and \
+        try:
+            cpoly = C.canon_expr(lin.args[2], Env())
+            names_ = C.names_of(cpoly)
+            cnt_ok = len(names_) == 1 and cpoly == C.add(C.atom(('n', next(iter(names_)))), C.ONE)
+        except C.CanonError:
+            cnt_ok = False
+        good = a[0] == f"{q0}[0].t_start" and a[1] == f"{q0}[0].t_end" and cnt_ok and \
             len(hist.args) >= 2 and isinstance(hist.args[1], ast.Name) and hist.args[1].id == bins_var
     obs.append(ok(rule, t, g.loc(), construct=f"{gn}::bins") if good else violation(rule, t, g.loc(), key=f"{gn}::bins"))
     return obs
